@@ -44,6 +44,9 @@ def divisor_folded_to_zero(v, prop="", text="", **kw):
     exc = (v.get("detail") or {}).get("exc") or ""
     if "ComplexInfinity" in exc or re.search(r"(?<![\w.])zoo(?![\w.])", exc):
         return f"{prop}-divisor-folded-to-zero-becomes-zoo"
+    if ("Invalid NaN comparison" in exc or "Invalid comparison of non-real" in exc) and divides_by_constant_zero(kw.get("ref")):
+        # the quotient by a constant zero sits inside a condition: sympy cannot compare zoo / nan
+        return f"{prop}-divisor-folded-to-zero-becomes-zoo"
     return None
 
 
@@ -532,6 +535,19 @@ def c01_matchers(v, text="", features=None, ode=None, ref=None, code=None, reche
         try:
             if without_simplify_counterfactual(ode, recheck):
                 return "C01-simplify-rewrites-through-complex-identity"
+        except Exception:
+            pass
+    if kind == "rhs_raises" and code and "Integers to negative integer powers" in exc and d.get("point") and has_int_branch_conditional(text):
+        # counterfactual on this very exception: with where() forced to float64 the same call at the same point no longer raises it
+        from ..exec.pyexec import PyModule
+
+        try:
+            mod = PyModule(code)
+            mod.ns["numpy"] = NumpyFloatWhere(mod.ns.get("numpy"))
+            full = dict(ref.default_point(), **d["point"]) if ref is not None else d["point"]
+            rec = mod.call("rhs", full)
+            if rec.exc is None or "Integers to negative integer powers" not in str(rec.exc):
+                return "C01-integer-branches-make-int64-where"
         except Exception:
             pass
     if kind in ("value", "rhs_raises") and code and recheck and has_int_branch_conditional(text):
